@@ -11,6 +11,7 @@ import (
 	"path/filepath"
 	"sort"
 	"strings"
+	"sync/atomic"
 	"testing"
 	"testing/synctest"
 	"time"
@@ -125,7 +126,7 @@ func runEvictPlan(t *testing.T, planAny any, ctl Ctl) *Result {
 	var evictionsBefore, evictionsAfter, cyclesAtTrigger int64
 	bubble(t, res, func() {
 		metrics.Global = metrics.NewMetrics()
-		s := zzsim.New(ctl.Seed, p.Pol)
+		s := zzsim.New(ctl.Seed, racePol(p.Pol))
 		if ctl.Replay != nil {
 			s.SetReplay(ctl.Replay, ctl.Guided)
 		}
@@ -148,7 +149,7 @@ func runEvictPlan(t *testing.T, planAny any, ctl Ctl) *Result {
 		}
 		s.Unexempt()
 		w := &cacheWorld{p: &CachePlan{Backend: p.Backend}, sim: s, c: c, cfg: cfg, dir: dir, res: res}
-		trigReady := false
+		var trigReady atomic.Bool
 		s.Spawn("actor:driver", func() {
 			// population: stores 2 ms apart, all inside the first 100 ms (before any tick)
 			for i, e := range p.Entries {
@@ -193,9 +194,11 @@ func runEvictPlan(t *testing.T, planAny any, ctl Ctl) *Result {
 			evictionsBefore = metrics.Global.Cache.CacheEvictions.Get()
 			cyclesAtTrigger = metrics.Global.Cache.CleanupRuns.Get()
 			trigStartT = time.Now()
-			trigReady = true
+			trigReady.Store(true)
+			resMu.Lock()
 			seq++
 			trigCall = seq
+			resMu.Unlock()
 			switch p.Trigger {
 			case "store":
 				src := &srcReader{w: w, data: body(99, 1, p.TrigSize)}
@@ -209,28 +212,34 @@ func runEvictPlan(t *testing.T, planAny any, ctl Ctl) *Result {
 					s.WaitUntil("harness:ev-tick", time.Now().Add(250*time.Millisecond))
 				}
 			}
+			resMu.Lock()
 			seq++
 			trigRet = seq
+			resMu.Unlock()
 			trigEndT = time.Now()
 			after = evSnap(cache.VerifPeek(c))
 			evictionsAfter = metrics.Global.Cache.CacheEvictions.Get()
 		})
 		if p.Interferer > 0 {
 			s.Spawn("actor:interferer", func() {
-				for !trigReady {
+				for !trigReady.Load() {
 					s.WaitUntil("harness:ev-int-wait", time.Now().Add(100*time.Millisecond))
 					if time.Since(start) > 20*time.Second {
 						return
 					}
 				}
+				resMu.Lock()
 				seq++
 				intCall = seq
+				resMu.Unlock()
 				src := &srcReader{w: w, data: body(98, 1, p.Interferer), chunk: p.Interferer / 6}
 				if ent, err := c.Cache(intKey, src, time.Now().Add(100*time.Hour), CMeta{98, 1}); err == nil && ent != nil && ent.Data != nil {
 					ent.Data.Close()
 				}
+				resMu.Lock()
 				seq++
 				intRet = seq
+				resMu.Unlock()
 			})
 		}
 		end := s.Run(func() bool { return s.TaskDone("actor:driver") && s.TaskDone("actor:interferer") })
